@@ -140,10 +140,13 @@ def _worker(task):
     return out
 
 
+UPDEPTH = {"quick": 4, "thorough": 6}
+
+
 def analyse_rules(repo: Optional[str], tier: str, rules: Optional[List[str]] = None,
                   use_cache: bool = True) -> List[dict]:
     prog, S = _setup(repo)
-    cfg = {"max_updepth": 3 if tier == "quick" else 4}
+    cfg = {"max_updepth": UPDEPTH[tier]}
     digest = source_digest(prog, extra=json.dumps(cfg, sort_keys=True) + tier + _self_digest())
     cache = VERIF / ".cache" / f"rulecases-{digest}.json"
     if use_cache and cache.exists() and rules is None:
